@@ -33,7 +33,7 @@ namespace GeographicLib {
       y0 = y,
       z0 = z,
       mul = 1;
-    while (Q >= mul * fabs(An)) {
+    while (isfinite(Q) && Q >= mul * fabs(An)) {
       // Max 6 trips
       real lam = sqrt(x0)*sqrt(y0) + sqrt(y0)*sqrt(z0) + sqrt(z0)*sqrt(x0);
       An = (An + lam)/4;
@@ -143,7 +143,7 @@ namespace GeographicLib {
       mul = 1,
       mul3 = 1,
       s = 0;
-    while (Q >= mul * fabs(An)) {
+    while (isfinite(Q) && Q >= mul * fabs(An)) {
       // Max 7 trips
       real
         lam = sqrt(x0)*sqrt(y0) + sqrt(y0)*sqrt(z0) + sqrt(z0)*sqrt(x0),
@@ -193,7 +193,7 @@ namespace GeographicLib {
       z0 = z,
       mul = 1,
       s = 0;
-    while (Q >= mul * fabs(An)) {
+    while (isfinite(Q) && Q >= mul * fabs(An)) {
       // Max 7 trips
       real lam = sqrt(x0)*sqrt(y0) + sqrt(y0)*sqrt(z0) + sqrt(z0)*sqrt(x0);
       s += 1/(mul * sqrt(z0) * (z0 + lam));
